@@ -1,5 +1,6 @@
 """C01 - luamin keeps the program: same tokens modulo renaming, nothing glued."""
 import os
+import re
 import tempfile
 
 from hypothesis import strategies as st
@@ -24,6 +25,7 @@ RULE = ('programs = LUAGEN model trees of the dialect (all statement kinds, PICO
         '(source, config).'
         ' Part "names": programs of 26-200 distinct identifiers from C02\'s population generator (underscore names, would-be generated names, glyph names) under the same oracle, incl. \'no two identifiers written as one\'. Every library minification is run twice on the same Lua object; if the second output differs it is the one judged.'
         " A number directly followed by a '.'-token in the OUTPUT that was not glued in the input counts as a fusion (Lua/PICO-8 take the dots into the numeral)."
+        ' Part "strings": statements around generated string literals (every escape form - named, P8SCII, 1-3 digit decimal for the values 0..255 incl. 14 and 15, \\x, line continuation, \\z - directly followed by digits / hex letters / quotes; raw control and high bytes; long brackets of every level), through the library and `p8tool luamin`: the minifier re-writes a quoted string from its decoded value, so the value decoded from the output must equal the value decoded from the input.'
         ' Part "header_names": kept identifiers of the form __word__ alone on an indented line (9 statement shapes x 11 names) through luamin / file.to_file / build: the written .p8 must still hold the program.')
 ASSUMPTIONS = ['lexical rules are represented by vlib/reflex.py (no Lua/PICO-8 binary in the sandbox)',
                'renaming injectivity and reserved names are C02\'s clauses; here only "one function"',
@@ -215,7 +217,23 @@ def names_of(src):
 
 
 def run_case(src, config, keep_body, ranges, case, via='lib', chunked=False):
-    """Minify src under config through `via`; apply the C01 oracle. Returns (ref_in, ref_out, mapping)."""
+    """Minify src under config through `via`; apply the C01 oracle. Returns (ref_in, ref_out, mapping).
+    Half of the keep-file cases write the names to ONE path per process, rewritten for every case (a names file
+    edited between two runs of one process); the file is removed after the case."""
+    stable_kf = None
+    if config == 'keep_file' and len(keep_body) % 2 == 0:
+        stable_kf = os.path.join(tempfile.gettempdir(), 'c01_keep_%d.txt' % os.getpid())
+    try:
+        return _run_case(src, config, keep_body, ranges, case, via, chunked, stable_kf)
+    finally:
+        if stable_kf is not None:
+            try:
+                os.unlink(stable_kf)
+            except OSError:
+                pass
+
+
+def _run_case(src, config, keep_body, ranges, case, via, chunked, stable_kf):
     from pico8 import tool
     with tempfile.TemporaryDirectory(prefix='c01_') as td:
         args = {}
@@ -224,7 +242,7 @@ def run_case(src, config, keep_body, ranges, case, via='lib', chunked=False):
             args['keep_all_names'] = True
             cli.append('--keep-all-names')
         elif config == 'keep_file':
-            kf = os.path.join(td, 'keep.txt')
+            kf = stable_kf or os.path.join(td, 'keep.txt')
             with open(kf, 'wb') as fh:
                 fh.write(keep_body)
             args['keep_names_from_file'] = kf
@@ -494,6 +512,69 @@ def part_table(ctx):
                               'operators, statement juxtapositions'})
 
 
+def one_string(ch, allow_z):
+    """A generated literal that REFLEX reads as exactly one string token (lexatoms.gen_string is a soup generator: a
+    quote among the followers or a bracket inside a long string may end the literal early)."""
+    for _ in range(6):
+        s = lexatoms.gen_string(ch, allow_z)
+        ref = reflex.try_lex(s)
+        if ref is not None and len(ref) == 1 and ref[0].kind == 'string':
+            return s
+    return b'"\\0141"'
+
+
+def string_program(ch, allow_z):
+    """Statements around generated string literals (lexatoms.gen_string: every escape form next to every kind of
+    follower, raw control and high bytes, long brackets of every level), in forms every Lua 5.2 parser accepts."""
+    parts = []
+    for _ in range(1 + ch.below(5)):
+        k = ch.below(6)
+        s = one_string(ch, allow_z)
+        if k == 0:
+            parts.append(b'x=' + s)
+        elif k == 1:
+            parts.append(b'f' + s)
+        elif k == 2:
+            parts.append(b't={' + s + b',[ ' + one_string(ch, allow_z) + b' ]=1}')   # `[[[` would open a long string
+        elif k == 3:
+            parts.append(b'if a==' + s + b' then b=' + s + b' end')
+        elif k == 4:
+            parts.append(b'a=' + s + b'..' + one_string(ch, allow_z))
+        else:
+            parts.append(b'print(' + s + b')')
+        parts.append(ch.pick([b'\n', b'\r\n', b' ', b'\n\n', b' -- c\n', b';']))
+    src = b''.join(parts)
+    if ch.chance(60):
+        src = src.rstrip(b'\r\n ')
+    return src
+
+
+def part_strings(ctx):
+    """String literals of every spelling: the minifier re-writes quoted strings from their decoded value, so the value
+    REFLEX decodes from the output must be the value it decodes from the input, byte for byte."""
+    def body(seed):
+        ch = Choices(seed)
+        src = string_program(ch, allow_z='esc_z' not in ctx.open_findings)
+        ref = reflex.try_lex(src)
+        if ref is None:
+            ctx.stats.exclude('string_program_not_lexable')
+            return
+        config = ch.pick(['default', 'default', 'keep_all'])
+        via = 'lib' if (ch.below(12) or b'\x00' in src or b'#include' in src or b'__lua__' in src) else 'luamin_p8'   # as in part_programs
+        case = {'source': src, 'config': config, 'keep': b'', 'via': via}
+        run_case(src, config, b'', [], case, via)
+        strs = [t for t in reflex.significant(ref) if t.kind == 'string']
+        labs = ['string_program']
+        if any(b'\\' in t.text for t in strs):
+            labs.append('string_with_escape')
+        if re.search(rb'\\[0-9]{1,3}[0-9a-fA-F]', src):
+            labs.append('decimal_escape_before_digit')
+        if re.search(rb'[\x00-\x08\x0b\x0c\x0e-\x1f][0-9]', src):
+            labs.append('raw_control_byte_before_digit')
+        ctx.stats.case(src + config.encode(), bool(strs) and len(labs) > 1, {'source': show(src, 140), 'config': config, 'via': via}, labs)
+    ctx.hyp('strings', st.binary(min_size=200, max_size=200), body, max_examples=1500 if ctx.quick else 30000)
+
+
 def part_names(ctx):
     """Programs with many distinct identifiers (26-200: generated names of one and two letters are reached), among them
     underscore names, names that look like generated ones and glyph names: the output must be the input modulo ONE
@@ -563,9 +644,9 @@ def part_header_names(ctx):
 def parts(tier):
     if tier == 'quick':
         return [('programs', part_programs, 8), ('table', part_table, 6), ('names', part_names, 2),
-                ('header_names', part_header_names, 1)]
+                ('header_names', part_header_names, 1), ('strings', part_strings, 2)]
     return [('programs', part_programs, 9), ('table', part_table, 5), ('names', part_names, 2),
-            ('header_names', part_header_names, 1)]
+            ('header_names', part_header_names, 1), ('strings', part_strings, 3)]
 
 
 def replay(case):
@@ -583,7 +664,8 @@ def vacuity(total, tier):
     for lab in ('adj_symnum', 'adj_sym_sym', 'adj_number_dot', 'adj_minus_minus', 'adj_bracket_longstring',
                 'line_scoped', 'cfg_default', 'cfg_keep_all', 'cfg_keep_file', 'via_luamin_p8', 'via_luamin_png',
                 'via_build', 'via_file_p8', 'via_luamin_two_carts', 'mode_minimal', 'many_names_with_underscore_name',
-                'header_like_name_alone_on_a_line'):
+                'header_like_name_alone_on_a_line', 'string_with_escape', 'decimal_escape_before_digit',
+                'raw_control_byte_before_digit'):
         if total.classes.get(lab, 0) < 3:
             msgs.append('class %s seen %d times' % (lab, total.classes.get(lab, 0)))
     if total.classes.get('table_cases', 0) < 30000:
